@@ -96,6 +96,18 @@ def sweep_cases(rnd, full):
         out.append(("lineno", "\n" * nl + "bogus " + "a" * 92))
         out.append(("lineno", "nop\n" * nl + "vpaddb ymm1, ymm2, [rax+rbx*8+0x" + "0" * 60 + "10]"))
     out.append(("manylines", "\n" * 200000 + "\r\n" * 1000 + ";" * 5000))
+    # lines that are SHORT after filtering but LONG as written: runs of blanks / tabs (200 .. 1 MiB; around BUFSIZ = 8192 and the other
+    # powers of two) after the mnemonic, around the comma, inside the brackets, in front of the line and before a comment - in valid
+    # lines and in lines that are rejected only after the filter (unknown register / mnemonic, bad operand kinds, bad address, bad
+    # number), whose diagnostics may echo the line; also behind a long comment
+    BASES = ["mov rax,%srbx", "mov%s rax, rbx", "%smov rax, rbx", "add qword [rax+%srcx*4], 5", "vpaddb ymm1, ymm2,%s ymm3", "ret%s", "mov rax, rbx%s; c",
+             "mov rax,%srbz", "mox%s rax, rbx", "mov rax,%sxmm1", "lea rax, [rbx+%srcx*3]", "add rax,%s0x12g", "mov rax, [rbx%s", "push%s", "jmp short%s 300", "bogus%s", "mov rax,%s rbx, rcx"]
+    for nb in (200, 1000, 4095, 4096, 4097, 8191, 8192, 8193, 16384, 65535, 65536, 1 << 20) if full else (1000, 4096, 8192, 8193, 65536, 1 << 20):
+        for bi, bt in enumerate(BASES):
+            for ch in ((" ", "\t", " \t") if full else (" \t"[(bi + nb) % 2],)):
+                out.append(("blanks", bt % (ch * (nb // len(ch)))))
+        out.append(("blanks", "mov rax, rbz ;" + "c" * nb))
+        out.append(("blanks", "nop\n" + " " * nb + "\nmov rax, rbz" + "\t" * nb + "\nret"))
     return out
 
 
@@ -375,7 +387,7 @@ def run(tier):
     v.cov["rule"] = ("(a) libFuzzer (clang, ASan+UBSan, reports fatal) on a structure-aware target: 8 control bytes choose option values (incl. out-of-range), entry point (str, str+fitting, counting, file, file-counting, "
                      "two calls), chunk size, caller/library buffer, buffer length and start offset, the rest is the NUL-terminated text; dictionary of all mnemonics/registers/keywords/punctuation, seeds = the C01-C05 "
                      "corpora; %d jobs x %d runs; (b) directed sweeps: filtered line lengths 90-110 x 12 line shapes x 13 last-token kinds, 0-8 operands, every keyword pair, every byte value at every position of 6 templates, "
-                     "1 MiB lines, 10^5-line programs, on caller and library buffers in plain/fitting/counting mode; the longest encodings the library emits (ALU/test/mov x 7 memory shapes x size keywords x immediates of 1-8 bytes, incl. ones the destination cannot hold: up to 17 bytes) x chunk sizes around their length x fill levels of the chunk, fitting and counting; programs whose last instructions sweep through the growth thresholds of the library buffer (6000, 12000, ...) under chunk sizes that do / do not divide 6000, with every growth forced to move the mapping; write positions up to INT_MAX on library buffers (grow that far or fail cleanly); (c) seeds + fuzzer corpus + sweeps replayed under MemorySanitizer. Oracle: no sanitizer report, no signal, "
+                     "1 MiB lines, 10^5-line programs, valid and rejected lines with runs of 1000 .. 2^20 blanks / tabs at 17 positions (short after filtering, long as written), on caller and library buffers in plain/fitting/counting mode; the longest encodings the library emits (ALU/test/mov x 7 memory shapes x size keywords x immediates of 1-8 bytes, incl. ones the destination cannot hold: up to 17 bytes) x chunk sizes around their length x fill levels of the chunk, fitting and counting; programs whose last instructions sweep through the growth thresholds of the library buffer (6000, 12000, ...) under chunk sizes that do / do not divide 6000, with every growth forced to move the mapping; write positions up to INT_MAX on library buffers (grow that far or fail cleanly); (c) seeds + fuzzer corpus + sweeps replayed under MemorySanitizer. Oracle: no sanitizer report, no signal, "
                      "no hang (10 s watchdog), return value in {0,1}. distinct_nontrivial = distinct directed cases + coverage edges reached by the fuzzer" % (njobs, per))
     v.cov["exhaustive"] = False
     v.cov.update(stats)
